@@ -106,7 +106,7 @@ PROPERTY = dict(
                           check_eject_every='None, 0..5', margin='unbounded integer coordinates'),
             'thorough': dict(buffered_molecules='2..5')},
     outside=['fragments joining existing molecules during the step (covered by C06 grouping lemmas)',
-             'MatePairIterator (third party)', 'perform_allele_clustering'],
+             'MatePairIterator (third party)', 'perform_allele_clustering', 'the plain Fragment class under both pooling methods (its start-OR-end equality is not transitive, so the two methods can group differently)'],
     assumptions=['L1 is an inductive step: arbitrary buffer of distinct molecules, arbitrary (time-invariant) can_be_yielded verdicts',
                  'L2: sorted input, every fragment shorter than cache_size/2 - 13, site within 6 nt of its fragment (soft clip bound)',
                  'composition L1 (ejects exactly the yieldable set, nothing else) + L2 (yieldable => closed) => schedule independence; the composition itself is a paper argument'],
